@@ -28,6 +28,7 @@ var c03Configs = []worlda.Config{
 	{KM: "memkm", CA: "memca"}, {KM: "memkm", CA: "memca", ViaCLI: true},
 	{KM: "memkm", CA: "gcsca"}, {KM: "memkm", CA: "gcsca", ViaCLI: true},
 	{KM: "localkm", CA: "localca", ViaCLI: true}, {KM: "localkm", CA: "gcsca"},
+	{KM: "gcpkms", CA: "gcsca"}, {KM: "gcpkms", CA: "gcsca", ViaCLI: true},
 }
 
 func init() {
